@@ -243,7 +243,7 @@ class SchemaGen:
         if b == "String": return r.choice(["", "s", "héllo", "12"])
         if b == "Boolean": return r.random() < 0.5
         if b == "ID": return r.choice(["id", "7", 7])
-        if b == "Any": return r.choice(["s", 5, True, [1, "a"], {"k": 1}])
+        if b == "Any": return r.choice(["s", 5, True, [1, "a"], {"k": 1}, "NULLME"])
         t = self.tdef(b)
         if t["kind"] == "enum": return r.choice(t["values"])
         raise ValueError(b)
@@ -280,6 +280,8 @@ class SchemaGen:
         if t["kind"] == "interface": return [o["name"] for o in self.objs if n in o["interfaces"]]
         return []
 
+    exc_items = 0.0      # probability that a list item is an exception instance (set by fault-oriented profiles)
+
     def value_for(self, ty, depth, adv, typename_style=None):
         """Python-side *wire* value (see pyval.py) for output type `ty`; adv = probability of garbage"""
         r = self.r
@@ -293,7 +295,11 @@ class SchemaGen:
         if r.random() < 0.08: return None
         if "l" in ty:
             n = r.randint(0, 3) if depth < 4 else 0
-            return [self.value_for(ty["l"], depth + 1, adv) for _ in range(n)]
+            items = [self.value_for(ty["l"], depth + 1, adv) for _ in range(n)]
+            if items and r.random() < self.exc_items:
+                tart = r.random() < 0.5
+                items[r.randrange(len(items))] = {"x": tart, "m": "item failure", "e": [["code", {"i": "9"}]] if tart and r.random() < 0.5 else []}
+            return items
         b = ty["n"]
         if b in self.leaf_names: return enc(self.good_leaf(b))
         t = self.tdef(b)
@@ -377,7 +383,26 @@ class DocGen:
         r = self.r
         if vars_ is not None and r.random() < 0.3:
             return vvar(self.new_var(ty, vars_))
-        return self.sg.const_literal(ty, depth)
+        lit = self.sg.const_literal(ty, depth)
+        if vars_ is not None and self.nested_vars and r.random() < 0.35:
+            lit = self.nest_vars(ty, lit, vars_)
+        return lit
+
+    nested_vars = False      # place correctly typed variables INSIDE list / object literals (C05)
+
+    def nest_vars(self, ty, lit, vars_):
+        """replace some sub-literals of `lit` (valid at `ty`) by variables declared with the exact position type"""
+        r = self.r
+        t = unwrap_nn(ty)
+        k = lit["kind"]
+        if k == "ListValue" and "l" in t:
+            return vlist([vvar(self.new_var(t["l"], vars_)) if r.random() < 0.4 else self.nest_vars(t["l"], x, vars_) for x in lit["values"]])
+        if k == "ObjectValue":
+            td = self.sg.tdef(base(t)) if "n" in t else (self.sg.tdef(base(t)) if "l" in t and "l" not in unwrap_nn(t["l"]) else None)
+            if td is None or td["kind"] != "input": return lit
+            fts = {f["name"]: f["type"] for f in td["fields"]}
+            return vobj([(f["name"]["value"], vvar(self.new_var(fts[f["name"]["value"]], vars_)) if r.random() < 0.4 else self.nest_vars(fts[f["name"]["value"]], f["value"], vars_)) for f in lit["fields"]])
+        return lit
 
     def args_text(self, f, vars_):
         parts = []
